@@ -267,11 +267,13 @@ theorem pushScalar_PX (ext : Ext) : ∀ (b : B) (x : SVal) (b' : B), pushScalar 
     · split at h
       · obtain ⟨idx', h1, h2⟩ := (bind_ok _ _ _).1 h
         cases h2
+        rw [ctx_eq_ok] at h1
         simp only [PX]
         exact ⟨pushScalar_PX ext idx _ idx' h1 hp.1, hp.2⟩
       · obtain ⟨vals', h1, h2⟩ := (bind_ok _ _ _).1 h
         obtain ⟨idx', h3, h4⟩ := (bind_ok _ _ _).1 h2
         cases h4
+        rw [ctx_eq_ok] at h1 h3
         simp only [PX]
         exact ⟨pushScalar_PX ext idx _ idx' h3 hp.1, pushScalar_PX ext vals _ vals' h1 hp.2⟩
     · simp [notSupported, fail] at h
